@@ -126,6 +126,9 @@ def qemu_parser_stage(ctx, qemu):
 def run(ctx):
     from oslo_utils import strutils
     from oslo_utils.imageutils import qemu
+    from vf import purity
+    _rec = purity.Recorder(strutils, ['string_to_bytes'], every=1)
+    _rec.__enter__()
     quick = ctx.quick
     ctx.assumptions += [
         'exact comparison when the value is exactly representable in binary64, otherwise relative error <= 2^-50 and '
@@ -226,6 +229,8 @@ def run(ctx):
     ctx.cov['evaluations'] += q
     ctx.stage('qemu-sizes', cases=q)
     qemu_parser_stage(ctx, qemu)
+    _rec.__exit__()
+    _rec.replay(ctx, 'c10')
     # 4. binding self-test: an exponent table off by one must be exposed
     saved = dict(strutils.UNIT_PREFIX_EXPONENT)
 
